@@ -3,4 +3,4 @@
 cd "$(dirname "$0")/.."
 run_one() { set -- $1; s=$1; shift; out=seeded/$s/results.txt; : > $out; tools/mutant_test.sh seeded/$s/patch.diff "$@" >> $out 2>&1; echo "done $s: $(grep -c '^== ' $out) checks; $(grep '^== ' $out | tr '\n' ' ')"; }
 export -f run_one
-printf '%s\n' "$@" | xargs -P 3 -I{} bash -c 'run_one "{}"'
+printf '%s\n' "$@" | xargs -P ${SEED_PAR:-3} -I{} bash -c 'run_one "{}"'
